@@ -48,6 +48,93 @@ def revert_family(rng, n):
     return out
 
 
+def resource_waiters(ctx, n):
+    """directed family (direct API): activities await resource-level comparisons (`res >= {..}`, `res <= {..}`, connectives
+    of them) while the levels change through EVERY route: borrow/claim blocks left normally, by an exception, by a cancel, by
+    an until-deadline, by closing the holder; increase / decrease / set.  A waiter resumes in the first time step in which
+    its condition holds when it gets its turn, and is not left waiting while it holds."""
+    import usim
+    from usim import time, Resources, Scope, until
+    rng = ctx.rng
+    for _ in range(n):
+        res = Resources(a=4)
+        route = rng.choice(['normal', 'exception', 'cancel', 'until', 'close', 'increase', 'decrease'])
+        d = rng.choice([1, 2, 3])
+        kind = rng.choice(['ge', 'ge-and', 'le'])
+        case = {'resource_waiter': dict(route=route, at=d, condition=kind)}
+        woke = []
+
+        async def holder():
+            if route == 'until':
+                async with until(time + d):
+                    async with res.borrow(a=3):
+                        await (time + 50)
+            else:
+                try:
+                    async with res.borrow(a=3):
+                        await (time + (d if route in ('normal', 'exception') else 50))
+                        if route == 'exception':
+                            raise KeyError('leaving the block')
+                except KeyError:
+                    pass
+
+        async def waiter():
+            if kind == 'le':
+                cond = res <= {'a': 1}            # true while the holder is inside; wait for it to become false again first
+                await (time + 0.5)
+                await (res >= {'a': 2})
+            elif kind == 'ge':
+                await (res >= {'a': 4})
+            else:
+                await ((res >= {'a': 4}) & (time >= 0))
+            woke.append(time.now)
+
+        async def main():
+            async with Scope() as scope:
+                if route in ('increase', 'decrease'):
+                    await res.decrease(a=3) if route == 'increase' else None
+                    scope.do(waiter() if route == 'increase' else decreaser_waiter())
+                    await (time + d)
+                    if route == 'increase':
+                        await res.increase(a=3)
+                    else:
+                        await res.decrease(a=3)
+                else:
+                    task = scope.do(holder(), volatile=(route == 'close'))
+                    await usim.instant
+                    await usim.instant
+                    scope.do(waiter())
+                    if route == 'cancel':
+                        await (time + d)
+                        task.cancel()
+                    elif route == 'close':
+                        await (time + d)
+                        raise IndexError('closing the scope')
+                    try:
+                        await task
+                    except BaseException:   # noqa
+                        pass
+                await (time + 2)
+
+        async def decreaser_waiter():
+            await (res <= {'a': 1})
+            woke.append(time.now)
+        try:
+            usim.run(main())
+        except IndexError:
+            pass
+        except BaseException as e:   # noqa
+            ctx.fail(case, 'raised %r' % (e,), family='resource-waiters')
+            continue
+        ctx.count(case, nontrivial=True)
+        ctx.bump('family:resource-waiters')
+        if route == 'close':
+            continue        # the waiter is closed together with the holder: nothing to demand
+        if woke != [d]:
+            ctx.fail(case, 'the levels changed at %r (%s) so that the awaited comparison holds; the waiter resumed at %r'
+                     % (d, route, woke), family='resource-waiters')
+
+
 def resource_comparisons(ctx):
     """resource-level comparisons (`resources > {...}` etc.) are conditions too: their truth value must be the
     element-wise comparison of the current levels and `~c` must be its negation -- checked for all six operators
@@ -141,6 +228,7 @@ def run(ctx):
     # condition objects used by several simulations in a row / by a nested one (the family lives in C01)
     from harness.props import C01
     C01.reused_conditions(ctx, ctx.n(20, 300))
+    resource_waiters(ctx, ctx.n(40, 600))
     resource_comparisons(ctx)
 
 
